@@ -45,6 +45,9 @@ def gen(rng, tier):
     clients = [[] for _ in range(nclients + 1)]
     for s in range(nsubs):
         clients[0].append(["submit", s])
+        if rng.random() < 0.2:
+            # cancel straight after submit(): races with the executor's own thread picking the job up
+            clients[0].append(["cancel", s])
     for c in range(1, nclients + 1):
         t = 0.0
         for _ in range(rng.choice([1, 2, 3])):
